@@ -50,6 +50,8 @@ PROBES = [
     "single_record_patch",
     "sequential_path",
     "narrow_coordinate_dtype",
+    "parquet_groups_aligned_with_chunks",
+    "patch_column_and_centres_given",
 ]
 REAL_VS_STUB = dict(
     real="yaw readers/DataChunk/split/CatalogWriter/PatchWriter/load_patches, numpy, pandas, astropy.io.fits, h5py, pyarrow, tmpfs",
@@ -105,6 +107,11 @@ def gen_case(prng: Prng, tier: str) -> dict:
         policy=prng.choice(["prng", "prng", "prng", "first", "last", "rr"]),
         sched_seed=prng.below(1 << 40),
     )
+    if mode == "apply" and source != "random" and prng.chance(1, 6):
+        case["patch"]["extra_pid_column"] = True  # patch_name given as well: must be ignored
+    if source == "parquet" and chunksize is not None and prng.chance(1, 2):
+        # row-group boundaries that coincide with chunk boundaries
+        case["pq_rowgroup"] = prng.choice([chunksize, max(1, chunksize // 2), 2 * chunksize, 3 * chunksize])
     return case
 
 
@@ -153,6 +160,10 @@ def shrinks(case: dict):
         c = copy.deepcopy(case)
         c["patch"]["k"] -= 1
         yield c
+    if case["patch"].get("extra_pid_column"):
+        c = copy.deepcopy(case)
+        c["patch"].pop("extra_pid_column")
+        yield c
     for key, simple in (("buffersize", None), ("progress", False), ("use_none", False), ("cores_extra", 0)):
         if case.get(key) != simple:
             c = copy.deepcopy(case)
@@ -190,6 +201,10 @@ def evaluate(case: dict, o: dict) -> tuple[dict | None, str | None, dict]:
         probes["exact_multiple_of_chunk"] = 1
     if cs is None or cs > n:
         probes["chunk_larger_than_input"] = 1
+    if case.get("pq_rowgroup"):
+        probes["parquet_groups_aligned_with_chunks"] = 1
+    if p.get("extra_pid_column"):
+        probes["patch_column_and_centres_given"] = 1
     if case["workers"] == 1:
         probes["sequential_path"] = 1
     if d.get("coord_dtype", "f8") != "f8" and case["source"] != "random":
